@@ -76,17 +76,46 @@ async fn direct(deltio: std::sync::Arc<deltio::Deltio>, line: String) -> String 
 }
 
 /// `drop<k> <op>`: poll the handler future at most k times, then drop it.
+/// Wraps a handler future and records whether its last `Pending` came from one of the hook's
+/// injected yields (`verif::point`). A future is only ever dropped between polls, at a place where it
+/// is really suspended; an injected yield models other tasks running in parallel, not a suspension.
+struct Watch<F: std::future::Future> {
+    inner: std::pin::Pin<Box<F>>,
+    at_injected: std::sync::Arc<std::sync::atomic::AtomicBool>,
+}
+
+impl<F: std::future::Future> std::future::Future for Watch<F> {
+    type Output = F::Output;
+    fn poll(mut self: std::pin::Pin<&mut Self>, cx: &mut std::task::Context<'_>) -> std::task::Poll<F::Output> {
+        let _ = verif::take_injected_flag();
+        let r = self.inner.as_mut().poll(cx);
+        let inj = verif::take_injected_flag();
+        self.at_injected.store(r.is_pending() && inj, std::sync::atomic::Ordering::SeqCst);
+        r
+    }
+}
+
 async fn poll_then_drop(deltio: std::sync::Arc<deltio::Deltio>, k: usize, line: String) -> String {
-    let mut fut = Box::pin(direct(deltio, line));
-    for i in 0..k {
+    let flag = std::sync::Arc::new(std::sync::atomic::AtomicBool::new(false));
+    let mut fut = Box::pin(Watch { inner: Box::pin(direct(deltio, line)), at_injected: flag.clone() });
+    let mut i = 0;
+    loop {
+        if i >= k && !flag.load(std::sync::atomic::Ordering::SeqCst) {
+            break;
+        }
         match futures::poll!(fut.as_mut()) {
             std::task::Poll::Ready(r) => return r,
             std::task::Poll::Pending => {
+                i += 1;
                 // no yield after the last poll: the future is dropped before anybody else runs
-                if i + 1 < k {
+                // (unless it sits at an injected yield: then it is polled on)
+                if i < k || flag.load(std::sync::atomic::Ordering::SeqCst) {
                     tokio::task::yield_now().await
                 }
             }
+        }
+        if i > k + 64 {
+            break;
         }
     }
     drop(fut);
@@ -94,12 +123,19 @@ async fn poll_then_drop(deltio: std::sync::Arc<deltio::Deltio>, k: usize, line: 
 }
 
 /// `dropat<k> <sleep_us> <op>`: run the handler as a task of its own (polled by the runtime like any
-/// gRPC handler), sleep, yield k times, then abort it (the future is dropped wherever it is suspended).
+/// gRPC handler), sleep, yield k times, then abort it (the future is dropped wherever it is suspended,
+/// never at an injected yield).
 async fn poll_sleep_drop(deltio: std::sync::Arc<deltio::Deltio>, k: usize, sleep_us: u64, line: String) -> String {
-    let handle = tokio::spawn(direct(deltio, line));
+    let flag = std::sync::Arc::new(std::sync::atomic::AtomicBool::new(false));
+    let handle = tokio::spawn(Watch { inner: Box::pin(direct(deltio, line)), at_injected: flag.clone() });
     tokio::time::sleep(Duration::from_micros(sleep_us)).await;
     for _ in 0..k {
         tokio::task::yield_now().await;
+    }
+    let mut extra = 0;
+    while flag.load(std::sync::atomic::Ordering::SeqCst) && !handle.is_finished() && extra < 64 {
+        tokio::task::yield_now().await;
+        extra += 1;
     }
     if handle.is_finished() {
         return handle.await.unwrap_or_else(|_| "PANIC".into());
@@ -109,10 +145,50 @@ async fn poll_sleep_drop(deltio: std::sync::Arc<deltio::Deltio>, k: usize, sleep
     "dropped".into()
 }
 
+/// `dropw<k> <sleep_us> <op>`: poll the handler once (it parks), sleep, poll it k more times without
+/// letting anybody else run in between, then drop it: the handler is abandoned right after what it did
+/// when it was woken (e.g. with its pull request sitting in the actor's mailbox).
+async fn poll_sleep_poll_drop(deltio: std::sync::Arc<deltio::Deltio>, k: usize, sleep_us: u64, line: String) -> String {
+    let flag = std::sync::Arc::new(std::sync::atomic::AtomicBool::new(false));
+    let mut fut = Box::pin(Watch { inner: Box::pin(direct(deltio, line)), at_injected: flag.clone() });
+    // run it until it is parked (request sent, empty answer received, waiting for the signal)
+    for _ in 0..4 {
+        if let std::task::Poll::Ready(r) = futures::poll!(fut.as_mut()) {
+            return r;
+        }
+        tokio::task::yield_now().await;
+    }
+    tokio::time::sleep(Duration::from_micros(sleep_us)).await;
+    let mut polls = 0;
+    while polls < k || flag.load(std::sync::atomic::Ordering::SeqCst) {
+        if flag.load(std::sync::atomic::Ordering::SeqCst) {
+            tokio::task::yield_now().await; // an injected yield is not a place to be abandoned at
+        }
+        if let std::task::Poll::Ready(r) = futures::poll!(fut.as_mut()) {
+            return r;
+        }
+        polls += 1;
+        if polls > k + 64 {
+            break;
+        }
+    }
+    drop(fut);
+    "dropped".into()
+}
+
 async fn one(env: &mut Env, line: &str) -> (String, String) {
     let b = tick();
     let toks = line.split_whitespace().collect::<Vec<_>>();
-    let (main, side) = if toks[0].starts_with("dropat") && toks[0].len() > 6 {
+    let (main, side) = if toks[0].starts_with("dropw") && toks[0].len() > 5 {
+        let k: usize = toks[0][5..].parse().unwrap_or(1);
+        let sleep_us: u64 = toks[1].parse().unwrap_or(0);
+        let rest = toks[2..].join(" ");
+        let r = match tokio::time::timeout(Duration::from_secs(3600), poll_sleep_poll_drop(env.deltio.clone(), k, sleep_us, rest)).await {
+            Ok(r) => r,
+            Err(_) => "HANG".to_string(),
+        };
+        (r, String::new())
+    } else if toks[0].starts_with("dropat") && toks[0].len() > 6 {
         let k: usize = toks[0][6..].parse().unwrap_or(0);
         let sleep_us: u64 = toks[1].parse().unwrap_or(0);
         let rest = toks[2..].join(" ");
@@ -143,7 +219,7 @@ async fn one(env: &mut Env, line: &str) -> (String, String) {
     } else if toks[0] == "probe" {
         // observe the subscription at a quiescent instant (no other task is runnable)
         seq::settle_force().await;
-        let a = seq::step(env, &format!("stats {}", toks[1])).await;
+        let a = seq::step(env, &format!("stats1 {}", toks[1])).await;
         (a.main, a.side)
     } else if toks[0] == "yield" {
         let n: u64 = toks[1].parse().unwrap();
